@@ -263,6 +263,10 @@ TrDialDone ==
           /\ tasks' = [tasks EXCEPT ![Cur.task].fin = "ok"]
           /\ UNCHANGED <<closedL, closeT>>
      ELSE /\ tasks' = [tasks EXCEPT ![Cur.task].fin = "err"]
+          \* once the listener's ack has been read nothing stands between the task and success
+          \* (no await follows, and a timeout polls the task first): whether anybody still
+          \* waits for the result of the dial plays no part
+          /\ tk.gid # 0 => ~conns[tk.gid].ackRead
           /\ IF tk.gid # 0                              \* the connection is dropped
              THEN /\ closedL' = [closedL EXCEPT ![N] = @ \cup {tk.gid}]
                   /\ Closes(N, {tk.gid})
@@ -376,6 +380,7 @@ TrInDone ==
           /\ tasks' = [tasks EXCEPT ![Cur.task].fin = "ok"]
           /\ UNCHANGED <<closedL, closeT>>
      ELSE /\ tasks' = [tasks EXCEPT ![Cur.task].fin = "err"]
+          /\ tk.gid # 0 => ~conns[tk.gid].ackConf     \* a confirmed ack leaves nothing that can fail
           /\ IF tk.gid # 0
              THEN /\ closedL' = [closedL EXCEPT ![N] = @ \cup {tk.gid}]
                   /\ Closes(N, {tk.gid})
